@@ -105,3 +105,8 @@ def native_replayer(pid, binname, roles, inputs=None):
             ob.status = "error"
             ob.detail += " — counterexample did NOT reproduce natively: treated as an encoder/model problem, not reported as a violation"
     return rp
+
+
+# what an encoder failure looks like: a construct of the *current* code that the engine or a scenario cannot follow. Caught per
+# scenario, recorded as an `error` obligation (exit 2 unless another scenario reports a reproduced violation), never a verdict.
+ENC_ERRORS = (Unsupported, KeyError, IndexError, AttributeError, TypeError, ValueError, AssertionError, z3.Z3Exception, RecursionError)
